@@ -108,6 +108,7 @@ func c06Hostile(t *rapid.T, size int, label string) uint32 {
 		rapid.SampledFrom([]uint32{0, 1, 4, 28, 31, 32, 33, 36, 64, 2048, 2084, 2112, 16380, 16382, 16383, 16384, 16385,
 			0xFFFFFFFF, 0xFFFFFFF0, 0x80000000, 0x7FFFFFFF, 0x00FFFFFF, 0x01000000, 0xFF000001}),
 		rapid.Uint32Range(0, uint32(size)+64),
+		rapid.Uint32Range(0xFFFFFFC0, 0xFFFFFFFF), // where adding a small field offset wraps around 32 bits
 		rapid.Custom(func(t *rapid.T) uint32 {
 			return uint32(size) - uint32(rapid.IntRange(0, 40).Draw(t, "fromEnd"))
 		}),
